@@ -2,6 +2,7 @@ import PPModel.Base.Sexp
 import PPModel.Mod.PR
 import PPModel.Mod.PRHeap
 import PPModel.Mod.PRHeapDeep
+import PPModel.Mod.PRHeapDeepC
 import PPModel.Mod.PRFromDict
 namespace PP.Driver.PRD
 open PP PP.Sexp PP.PR PP.PyList
@@ -180,6 +181,7 @@ def prHandle : List Sexp → Option Sexp
       some (.list [rSexp 64 (FromDict.fromDict kvs), jSexp 64 (.dict (FromDict.asDict (FromDict.fromDict kvs)))])
     | _ => none
   | [.atom "prshare", .str kind, .str probe] => (PRHeap.sharing kind probe).map ofBool
+  | [.atom "prcontshare"] => some (.list (PRHeap.contShare.map ofBool))
   | [.atom "prdeepshare", .str kind, d] => do
       let n ← d.int?
       if n < 1 ∨ n > 12 then none else (PRHeap.deepShare kind n.toNat).map (fun bs => .list (bs.map ofBool))
